@@ -1,7 +1,7 @@
 #!/bin/sh
 # usage: tools/verify_seed.sh <seed id e.g. C09-1> <crate dir e.g. libcnb-data> <worktree>
 # confirms: patch applies, suite passes with patch (189), demo fails with patch, demo passes without patch.
-id="$1"; crate="$2"; wt="$3"; out=/tmp/seed/out/$id
+id="$1"; crate="$2"; wt="$3"; out=${SEED_OUT:-/tmp/seed/out}/$id
 export CARGO_TARGET_DIR=$wt/target CARGO_NET_OFFLINE=true
 cd "$wt" || exit 2
 git checkout -q -- . ; git clean -fdq -e target
